@@ -179,6 +179,8 @@ Definition run_cmd (m : ovf_mode) (cmd : tok) (args : list tok) : list byte :=
   else if tok_is cmd "SRB" then run_srb m args
   else if tok_is cmd "CORR" then run_corr args
   else if tok_is cmd "JSON" then run_json args
+  else if tok_is cmd "JSONX" then S_ "NA"       (* megabyte-sized bundles: implementation + oracle only *)
+  else if tok_is cmd "OPSX" then S_ "NA"
   else if tok_is cmd "JTOK" then run_jtok args
   else if tok_is cmd "JSONDEC" then run_jsondec args
   else if tok_is cmd "IPPT" then run_ippt args
